@@ -14,11 +14,30 @@ require (
 	github.com/dgryski/go-farm v0.0.0-20190423205320-6a90982ecee2 // indirect
 	github.com/dustin/go-humanize v1.0.0 // indirect
 	github.com/golang/protobuf v1.3.1 // indirect
+	github.com/mattn/go-colorable v0.1.2 // indirect
+	github.com/mattn/go-isatty v0.0.8 // indirect
+	github.com/mgutz/ansi v0.0.0-20170206155736-9520e82c474b // indirect
+	github.com/pion/datachannel v1.4.14 // indirect
+	github.com/pion/dtls/v2 v2.0.0-rc.6 // indirect
+	github.com/pion/ice v0.7.8 // indirect
+	github.com/pion/logging v0.2.2 // indirect
+	github.com/pion/mdns v0.0.4 // indirect
+	github.com/pion/rtcp v1.2.1 // indirect
+	github.com/pion/rtp v1.3.2 // indirect
+	github.com/pion/sctp v1.7.4 // indirect
+	github.com/pion/sdp/v2 v2.3.4 // indirect
+	github.com/pion/srtp v1.2.7 // indirect
+	github.com/pion/stun v0.3.3 // indirect
+	github.com/pion/transport v0.8.10 // indirect
+	github.com/pion/turn/v2 v2.0.2 // indirect
+	github.com/pion/webrtc/v2 v2.2.0 // indirect
 	github.com/pkg/errors v0.9.1 // indirect
 	github.com/ugorji/go/codec v1.1.7 // indirect
+	github.com/x-cray/logrus-prefixed-formatter v0.5.2 // indirect
 	golang.org/x/crypto v0.0.0-20200128174031-69ecbb4d6d5d // indirect
 	golang.org/x/net v0.0.0-20200226121028-0de0cce0169b // indirect
 	golang.org/x/sys v0.0.0-20191120155948-bd437916bb0e // indirect
+	golang.org/x/xerrors v0.0.0-20191204190536-9bdfabe68543 // indirect
 )
 
 replace github.com/mosaicnetworks/babble => /repo
